@@ -105,7 +105,23 @@ fn main() {
         };
         std::process::exit(code);
     }
-    let code = match id.as_str() {
+    // a subject that poisons its own process-global state can take the checker's main thread down with it: whatever
+    // was already reported stands (exit 1 if a VIOLATION line was printed, 2 otherwise)
+    let id2 = id.clone();
+    let code = std::panic::catch_unwind(move || run_check(&id2, tier)).unwrap_or_else(|_| {
+        if report::VIOLATION_PRINTED.load(std::sync::atomic::Ordering::SeqCst) {
+            eprintln!("MACHINERY: the checker's main thread panicked after reporting a violation; the violation stands");
+            1
+        } else {
+            eprintln!("MACHINERY: the checker's main thread panicked");
+            2
+        }
+    });
+    std::process::exit(code);
+}
+
+fn run_check(id: &str, tier: Tier) -> i32 {
+    match id {
         "selftest" => selftest::run(),
         "C01" => props::c01::run(tier),
         "C02" => props::c02::run(tier),
@@ -131,6 +147,5 @@ fn main() {
             eprintln!("unknown check {id}");
             2
         }
-    };
-    std::process::exit(code);
+    }
 }
